@@ -713,6 +713,7 @@ typedef int (*out_fct_type)(char character, void *buffer, size_t idx,
 typedef struct {
     int (*fct)(char character, void *arg);
     void *arg;
+    int failed; /* the output function itself failed (I/O error) */
 } out_fct_wrap_type;
 
 // internal buffer output
@@ -753,10 +754,14 @@ static inline int safec_out_char(char character, void *buffer, size_t idx,
 // special-case of safec_out_fct for fprintf_s
 static inline int safec_out_fchar(char character, void *wrap, size_t idx,
                              size_t maxlen) {
+    out_fct_wrap_type *w = (out_fct_wrap_type *)wrap;
+    int rc;
     (void)idx;
     (void)maxlen;
-    //((out_fct_wrap_type *)wrap)->fct(character, ((out_fct_wrap_type *)wrap)->arg);
-    return fputc(character, (FILE*)((out_fct_wrap_type *)wrap)->arg);
+    rc = fputc(character, (FILE *)w->arg);
+    if (unlikely(rc == EOF))
+        w->failed = 1;
+    return rc;
 }
 #endif
 
